@@ -1641,6 +1641,7 @@ def main(tier, replay_path=None):
               "text \"#\\\\x(\" -> recogniser: 1 datum then not asserted", "text \"1 a\" -> recogniser: 2 data then eof"):
         chk.sample(s)
     common.cleanup_scratch()
+    _sweep_scratch()
     return chk.finish()
 
 
@@ -1661,3 +1662,14 @@ def confirm_alone(space, descr, text):
         return "error: %s" % ex
     finally:
         shutil.rmtree(d, ignore_errors=True)
+
+
+def _sweep_scratch():
+    """remove C08 scratch directories left by pool workers that were terminated at the deadline (owner pid gone)"""
+    root = common.SCRATCH_ROOT
+    if not os.path.isdir(root):
+        return
+    for f in os.listdir(root):
+        m = re.match(r'(?:c08|c08r|c08t)-(\d+)-\d+$', f)
+        if m and not os.path.exists("/proc/%s" % m.group(1)):
+            shutil.rmtree(os.path.join(root, f), ignore_errors=True)
